@@ -395,7 +395,11 @@ func TestVerifMgrEpMgr(t *testing.T) {
 	d := &vmEp{log: lg}
 	reps := vmEnvInt("VERIF_REPS", 8)
 	cfgs := []vmEpCfg{{"ipt", 4, true}, {"nft", 4, false}, {"ipt", 6, false}, {"nft", 6, true}}
+	only := vmOnly(t)
 	for bi, b := range vmBehaviours(t) {
+		if lg.Skip(only) {
+			continue
+		}
 		// batches of several operations exist iff some operation is not directly followed by a flush
 		batched := false
 		for i, op := range b {
@@ -434,6 +438,9 @@ func TestVerifMgrEpMgr(t *testing.T) {
 	}
 	seed := vmSeed()
 	for i := 0; i < vmN(); i++ {
+		if lg.Skip(only) {
+			continue
+		}
 		d.random(t, rand.New(rand.NewSource(seed*1000003+int64(i))), reps)
 	}
 	lg.Close(t)
